@@ -66,7 +66,79 @@ const (
 	compPC   = 14
 	compHIST = 15
 	opMark   = 99
+	opRun    = 90
 )
+
+// runArgs returns the arguments of the i-th operation of a run
+// (args = count, m, a0, d0, a1, d1, ...).
+func runArgs(args []int64, i int64) []int64 {
+	m := args[1]
+	out := make([]int64, 0, (len(args)-2)/2)
+	for j := 2; j+1 < len(args); j += 2 {
+		v := args[j] + i*args[j+1]
+		if m > 0 && args[j+1] != 0 {
+			v = ((v % m) + m) % m
+		}
+		out = append(out, v)
+	}
+
+	return out
+}
+
+// compress replaces maximal arithmetic runs of opcode-1 operations (only the
+// last one sampled) by one run operation.
+func compress(ops []opx, m int64) []opx {
+	var out []opx
+	for i := 0; i < len(ops); {
+		if ops[i].Op != 1 || ops[i].Sample || i+1 >= len(ops) || ops[i+1].Op != 1 ||
+			len(ops[i+1].Args) != len(ops[i].Args) {
+			out = append(out, ops[i])
+			i++
+
+			continue
+		}
+		na := len(ops[i].Args)
+		run := []int64{0, m}
+		for j := 0; j < na; j++ {
+			d := ops[i+1].Args[j] - ops[i].Args[j]
+			if m > 0 && d != 0 {
+				d = ((d % m) + m) % m
+				if d > m/2 {
+					d -= m
+				}
+			}
+			run = append(run, ops[i].Args[j], d)
+		}
+		k := i
+		for k < len(ops) && ops[k].Op == 1 && len(ops[k].Args) == na {
+			want := runArgs(run, int64(k-i))
+			same := true
+			for j := range want {
+				if want[j] != ops[k].Args[j] {
+					same = false
+				}
+			}
+			if !same {
+				break
+			}
+			k++
+			if ops[k-1].Sample {
+				break
+			}
+		}
+		if k-i < 3 {
+			out = append(out, ops[i])
+			i++
+
+			continue
+		}
+		run[0] = int64(k - i)
+		out = append(out, opx{Op: opRun, Args: run, Sample: ops[k-1].Sample})
+		i = k
+	}
+
+	return out
+}
 
 var compNames = map[int64]string{
 	compRL: "nack-receivelog", compRS: "report-receiverstream", compRB: "rtpbuffer", compNG: "nack-generator",
@@ -113,6 +185,14 @@ func run(c c12Case) (out c12Case) {
 		if o.Op == opMark {
 			es = d.phaseEnd()
 			es = append(es, entry{Op: opMark, Args: []int64{}, Obs: d.sizes()})
+		} else if o.Op == opRun {
+			for i := int64(0); i < o.Args[0]; i++ {
+				d.apply(opx{Op: 1, Args: runArgs(o.Args, i)})
+			}
+			es = []entry{{Op: opRun, Args: append([]int64{}, o.Args...)}}
+			if o.Sample {
+				es[0].Obs = d.sizes()
+			}
 		} else {
 			es = d.apply(o)
 			if o.Sample && len(es) > 0 {
@@ -126,12 +206,15 @@ func run(c c12Case) (out c12Case) {
 }
 
 func (c c12Case) coq() string {
-	es := make([]string, len(c.Trace))
-	for i, e := range c.Trace {
-		es[i] = cq.T(cq.Z(e.Op), cq.LZ(e.Args), cq.LZ(e.Obs))
+	var flat []int64
+	for _, e := range c.Trace {
+		flat = append(flat, e.Op, int64(len(e.Args)))
+		flat = append(flat, e.Args...)
+		flat = append(flat, int64(len(e.Obs)))
+		flat = append(flat, e.Obs...)
 	}
 
-	return cq.T(cq.Z(c.Comp), cq.LZ(c.Cfg), cq.L(es))
+	return cq.T(cq.Z(c.Comp), cq.LZ(c.Cfg), cq.LZ(flat))
 }
 
 func (c c12Case) toCase(buckets ...string) cq.Case {
@@ -206,11 +289,14 @@ func pattern(r *rand.Rand, kind string, n int) []int64 {
 
 var kinds = []string{"inorder", "loss", "dup", "reorder", "burst", "mixed"}
 
-// phased repeats build(phase) `phases` times, each followed by a phase mark.
-func phased(phases int, build func(phase int) []opx) []opx {
+// phased repeats build(phase, pr) `phases` times, each followed by a phase
+// mark. pr is re-seeded identically for every phase, so that every phase is
+// the same workload (shifted in sequence-number space by the builder).
+func phased(r *rand.Rand, phases int, build func(phase int, pr *rand.Rand) []opx) []opx {
+	seed := r.Int63()
 	var ops []opx
 	for p := 0; p < phases; p++ {
-		ops = append(ops, build(p)...)
+		ops = append(ops, build(p, rand.New(rand.NewSource(seed)))...) //nolint:gosec
 		ops = append(ops, opx{Op: opMark, Args: []int64{}})
 	}
 
@@ -239,10 +325,15 @@ func seqCase(r *rand.Rand, comp int64, cfg []int64, kind string, n, phases int, 
 		base = 65536 - int64(r.Intn(n+1))
 	}
 	span := int64(n)
-	cnt := 0
-	ops := phased(phases, func(p int) []opx {
+	for _, off := range pat {
+		if off >= span {
+			span = off + 1
+		}
+	}
+	ops := phased(r, phases, func(p int, _ *rand.Rand) []opx {
 		var o []opx
 		hi := int64(0)
+		cnt := 0
 		for _, off := range pat {
 			s := base + int64(p)*span + off
 			if s > hi {
@@ -273,7 +364,7 @@ func main() {
 	var order []*cq.Set
 	for comp := int64(1); comp <= compHIST; comp++ {
 		sets[comp] = &cq.Set{
-			Name: setNames[comp], Import: "IV.Check.C12Check", CaseType: "Z * list Z * list (Z * list Z * list Z)",
+			Name: setNames[comp], Import: "IV.Check.C12Check", CaseType: "Z * list Z * list Z",
 			Checks: []string{"c12_mismatches", "c12_spec_failures"},
 		}
 		order = append(order, sets[comp])
@@ -291,6 +382,11 @@ func main() {
 	var cases []c12Case
 	var buckets [][]string
 	add := func(c c12Case, b ...string) {
+		m := int64(65536)
+		if c.Comp == compAM || c.Comp == compLRU {
+			m = 0
+		}
+		c.Ops = compress(c.Ops, m)
 		cases = append(cases, c)
 		buckets = append(buckets, append([]string{c.Name}, b...))
 	}
@@ -340,22 +436,27 @@ func generate(o *cq.Opts, r *rand.Rand, add func(c12Case, ...string)) {
 			add(seqCase(r, compRS, []int64{}, kind, n, 4, 65536, 50, func(int64, int) []opx {
 				return []opx{{Op: 2, Args: []int64{0}}}
 			}))
-			// rtp buffer
-			for _, sz := range []int64{1, 8, 64, 1024} {
+			// rtp buffer (phases longer than the ring, so that the first phase fills it)
+			for _, sz := range []int64{1, 8, 64} {
 				add(seqCase(r, compRB, []int64{sz}, kind, n, 4, 65536, 0, nil), fmt.Sprintf("size%d", sz))
 			}
+			add(seqCase(r, compRB, []int64{1024}, kind, n, 2, 65536, 0, nil), "size1024", "filling")
 			add(rbJumps(r), "jumps")
 			// arrival map
 			add(amCase(r, kind, n, 0), "nofeedback")
 			add(amCase(r, kind, n, 20+r.Intn(100)), "feedback")
-			add(amCase(r, kind, 2500, 1000), "large")
-			// LRU
-			add(lruCase(r, kind, n))
-			// stream log
-			for _, mx := range []int64{0, 7, 100, 594, 16384} {
+			// LRU (phases longer than its 250 entries)
+			add(lruCase(r, kind, 300+n))
+			// stream log: budgets that a phase exceeds, so that the first phase reaches the steady state
+			for _, mx := range []int64{0, 7, 100} {
 				add(seqCase(r, compSL, []int64{}, kind, n, 4, 65536, 10+r.Intn(120), func(int64, int) []opx {
 					return []opx{{Op: 2, Args: []int64{mx}, Sample: true}}
 				}), fmt.Sprintf("budget%d", mx))
+			}
+			for _, mx := range []int64{594, 16384} { // still filling: bound and correspondence only (2 phases)
+				add(seqCase(r, compSL, []int64{}, kind, n, 2, 65536, 10+r.Intn(120), func(int64, int) []opx {
+					return []opx{{Op: 2, Args: []int64{mx}, Sample: true}}
+				}), fmt.Sprintf("budget%d", mx), "filling")
 			}
 			// jitter buffer
 			add(jbCase(r, kind, n))
@@ -363,6 +464,9 @@ func generate(o *cq.Opts, r *rand.Rand, add func(c12Case, ...string)) {
 			add(histCase(r, kind, n, 20+r.Intn(80), true), "twcc", "feedback")
 			add(histCase(r, kind, n, 20+r.Intn(80), false), "ccfb", "feedback")
 		}
+		add(seqCase(r, compRB, []int64{1024}, "inorder", 1500, 4, 65536, 0, nil), "size1024", "long")
+		add(amCase(r, "inorder", 2500, 1000), "large")
+		add(amCase(r, "burst", 2500, 1000), "large")
 		add(histCase(r, "inorder", 300, 0, true), "twcc", "nofeedback")
 		add(histCase(r, "inorder", 300, 0, false), "ccfb", "nofeedback")
 		add(srCase(r))
